@@ -32,7 +32,7 @@ Proved here, for **all** databases, contexts, plans and solution sequences:
   computes exactly the multiset the SPARQL algebra assigns to the pattern.
 
 /- FULL: the same statement for the whole supported fragment (`wellScoped [] pat`).  Not proved for: BIND (needs
-   freshness of the target among incoming variables), sub-selects (`finalize_subquery` is not permutation-invariant:
+   freshness of the target among incoming variables), sub-selects over more than one triple pattern (`finalize_subquery` is not permutation-invariant:
    LIMIT / first-row-of-group, so the statement there must be "a legal answer"), and the optimizer's scan reordering
    and star rewrite inside one BGP (`reorder_logical`, `is_star_query`), which are covered pairwise by
    `join_order_irrelevant` / `star_is_scan_chain`.  The correspondence run checks all of these against the algebra
